@@ -369,6 +369,16 @@ class Interp:
                     r = h.oracle("eq", t)
                     if r is not None:
                         return r
+                holes_ = [x for x in sym.atoms if not isinstance(x, Lit)]
+                if len(holes_) == 1 and isinstance(holes_[0], Hole) and holes_[0].oracle is not None and h is None:
+                    i = sym.atoms.index(holes_[0])
+                    pre = "".join(sym.atoms[:i])
+                    suf = "".join(sym.atoms[i + 1:])
+                    if not (t.startswith(pre) and t.endswith(suf) and len(t) >= len(pre) + len(suf)):
+                        return False
+                    r = holes_[0].oracle("eq", t[len(pre):len(t) - len(suf)])
+                    if r is not None:
+                        return r
                 # literal prefix / suffix mismatch
                 if isinstance(sym.atoms[0], Lit) and not t.startswith(sym.atoms[0]) and not sym.atoms[0].startswith(t):
                     return False
@@ -465,6 +475,11 @@ class Interp:
                                              f.frame.def_cls))
         if isinstance(f, Unknown):
             recv = f.meta.get("recv")
+            if isinstance(recv, Unknown) and "concrete_groups" in recv.meta and f.meta.get("attr") == "group" and \
+                    len(args) == 1 and isinstance(args[0], IntV) and not kwargs and \
+                    0 <= args[0].v < len(recv.meta["concrete_groups"]):
+                g = recv.meta["concrete_groups"][args[0].v]
+                return NONE if g is None else Str.lit(g)
             if isinstance(recv, Unknown) and "group0" in recv.meta and f.meta.get("attr") == "group" and \
                     (not args or (len(args) == 1 and isinstance(args[0], IntV) and args[0].v == 0)) and not kwargs:
                 return recv.meta["group0"]
